@@ -1,16 +1,20 @@
 (* C18 - host functions receive the right arguments and can safely re-enter scripts.  PARTIAL.
-   Statements only; proofs are in Cao.VmProofs (model Cao.Vm: traits.rs wrappers = peek k arguments, convert
-   last-to-first, call, pop_n::<k>; call_native; run_function).
-   Proved for the model: argument order / conversion / consumption / result for the two-parameter wrapper
-   (C18_native_args_sub2), conversion failure naming the parameter and still consuming it
-   (C18_conversion_error_str1), error wrapping as TaskFailure{registered name} for EVERY native of the menu
-   (C18_native_error_wrapped), unknown names.
-   NOT proved, claimed by the correspondence run only: the same for the wrappers of arity 1, 3, 4 and the other
-   conversions (checked by code 1 of C18Check.v on the host log = the converted arguments each native received);
-   reentry_balanced (checked by the rb1 oracle, code 2: heights before = heights after run_function);
+   Statements only; proofs are in Cao.VmProofs and Cao.VmNativeProofs (model Cao.Vm: traits.rs wrappers = peek k
+   arguments, convert last-to-first, call, pop_n::<k>; call_native; run_function).
+   Proved for the model: argument order / conversion / consumption / result for one wrapper of every arity:
+   arity 1 (C18_native_args_str1, C18_native_args_nil1 = Nilable<i64>: None exactly for nil), arity 2
+   (C18_native_args_sub2), arity 3 (C18_native_args_mix3), arity 4 (C18_native_args_t4); conversion failure naming
+   the parameter and still consuming every argument (C18_conversion_error_str1, C18_conversion_error_t4: the last
+   parameter is converted first); error wrapping as TaskFailure{registered name} for EVERY native of the menu
+   (C18_native_error_wrapped), unknown names; run_function restores the caller's stack and frames once the callee
+   reaches its Return with them intact (C18_reentry_balanced_partial).
+   NOT proved, claimed by the correspondence run only: the same for the remaining natives of the menu (checked
+   by code 1 of C18Check.v on the host log, and by the conv_spec oracle, code 2, on the recorded invocations);
+   the missing half of reentry_balanced (the callee's body keeps the caller's part of the stack and the frames
+   below its own intact up to its Return: frame discipline of compiled code; checked by the rb1 oracle, code 2);
    `register_native_function` rejecting names that start with "__" (harness-level check, code 2). *)
 From Coq Require Import NArith ZArith List Lia.
-From Cao Require Import Stacks Bits Vm VmProofs.
+From Cao Require Import Stacks Bits Vm VmProofs VmNativeProofs.
 Import ListNotations.
 
 (* sub2(a: i64, b: i64) called with the stack l ++ [v1; v2]: a = conv v1 (declared first), b = conv v2; exactly
@@ -57,3 +61,99 @@ Theorem C18_native_unknown : forall F P re fuel h s,
   call_native_fuel F P re (S fuel) h s = NErr (EProcedureNotFound h) s.
 Proof. exact native_unknown. Qed.
 Print Assumptions C18_native_unknown.
+
+(* arity 1, &str: the string is received as it is, its argument is consumed, the result pushed *)
+Theorem C18_native_args_str1 : forall F P re fuel s l v b,
+  stack_ok s -> stack_of s = l ++ [v] -> as_str (st_heap s) v = SIs b ->
+  exists s',
+    call_native_fuel F P re (S fuel) (handle_of_bytes name_str1) s = NOk (VInt (Z.of_nat (length b))) s' /\
+    stack_of s' = l ++ [VInt (Z.of_nat (length b))] /\
+    st_log s' = st_log s ++ [[TStr b]] /\
+    st_calls s' = st_calls s /\ st_globals s' = st_globals s /\ st_heap s' = st_heap s.
+Proof. exact native_args_str1. Qed.
+Print Assumptions C18_native_args_str1.
+
+(* arity 1, Nilable<i64>: nil1 logs what it received (TNil for None, TInt i for Some i) and returns -1 / i.
+   None exactly for nil; any other value goes through the i64 conversion *)
+Theorem C18_native_args_nil1 : forall F P re fuel s l v,
+  stack_ok s -> stack_of s = l ++ [v] ->
+  (v = VNil \/ exists i, v <> VNil /\ to_i64 F (st_heap s) v = Some i) ->
+  exists s' res entry,
+    call_native_fuel F P re (S fuel) (handle_of_bytes name_nil1) s = NOk res s' /\
+    stack_of s' = l ++ [res] /\
+    st_log s' = st_log s ++ [[entry]] /\
+    (v = VNil -> res = VInt (-1) /\ entry = TNil) /\
+    (forall i, v <> VNil -> to_i64 F (st_heap s) v = Some i -> res = VInt i /\ entry = TInt i) /\
+    st_calls s' = st_calls s /\ st_globals s' = st_globals s /\ st_heap s' = st_heap s.
+Proof. exact native_args_nil1. Qed.
+Print Assumptions C18_native_args_nil1.
+
+(* arity 3: mix3(a: f64, b: i64, c: Value) with the stack l ++ [v1; v2; v3] *)
+Theorem C18_native_args_mix3 : forall F P re fuel s l v1 v2 v3 a b,
+  stack_ok s -> stack_of s = l ++ [v1; v2; v3] ->
+  to_f64 F (st_heap s) v1 = Some a -> to_i64 F (st_heap s) v2 = Some b ->
+  exists s',
+    call_native_fuel F P re (S fuel) (handle_of_bytes name_mix3) s = NOk VNil s' /\
+    stack_of s' = l ++ [VNil] /\
+    st_log s' = st_log s ++ [[TReal (canon_real F a); TInt b; tree_of F (st_heap s) v3]] /\
+    st_calls s' = st_calls s /\ st_globals s' = st_globals s /\ st_heap s' = st_heap s.
+Proof. exact native_args_mix3. Qed.
+Print Assumptions C18_native_args_mix3.
+
+(* arity 4: t4(a: i64, b: f64, c: bool, d: &str) with the stack l ++ [v1; v2; v3; v4] *)
+Theorem C18_native_args_t4 : forall F P re fuel s l v1 v2 v3 v4 a b c d,
+  stack_ok s -> stack_of s = l ++ [v1; v2; v3; v4] ->
+  to_i64 F (st_heap s) v1 = Some a -> to_f64 F (st_heap s) v2 = Some b ->
+  as_bool F (st_heap s) v3 = Some c -> as_str (st_heap s) v4 = SIs d ->
+  exists s',
+    call_native_fuel F P re (S fuel) (handle_of_bytes name_t4) s = NOk VNil s' /\
+    stack_of s' = l ++ [VNil] /\
+    st_log s' = st_log s ++ [[TInt a; TReal (canon_real F b); TInt (if c then 1 else 0); TStr d]] /\
+    st_calls s' = st_calls s /\ st_globals s' = st_globals s /\ st_heap s' = st_heap s.
+Proof. exact native_args_t4. Qed.
+Print Assumptions C18_native_args_t4.
+
+(* arity 4, the last parameter is converted first: a non-string there is InvalidArgument naming parameter 4
+   whatever the other three are; all four arguments are consumed, the body does not run *)
+Theorem C18_conversion_error_t4 : forall F P re fuel s l v1 v2 v3 v4,
+  stack_ok s -> stack_of s = l ++ [v1; v2; v3; v4] -> as_str (st_heap s) v4 = SNot ->
+  exists s',
+    call_native_fuel F P re (S fuel) (handle_of_bytes name_t4) s
+      = NErr (ETaskFailure name_t4 (EConversion 4)) s' /\
+    stack_of s' = l /\ st_calls s' = st_calls s /\ st_globals s' = st_globals s /\ st_heap s' = st_heap s /\
+    st_log s' = st_log s.
+Proof. exact native_conversion_error_t4. Qed.
+Print Assumptions C18_conversion_error_t4.
+
+(* reentry_balanced, PARTIAL. A host function calls run_function on a script function / closure of arity |args|
+   with the stack  l ++ args  (the values it pushed on top of its caller's l). If the nested `_run` (the real
+   dispatch loop [loop], with any nesting [re0] below it) reaches the callee's Return at [ipr] in a state [x] in
+   which the two trap frames and the caller's frames are still in place and the caller's part  l  of the value
+   stack is unchanged, then run_function hands back the callee's return value and leaves exactly  l  on the value
+   stack (the caller's locals are slots of l) and exactly the caller's frames on the call stack.
+   MISSING for the full statement: that the body of a compiled callee keeps  l  and the frames below its own
+   intact up to its Return (no instruction of a compiled function pops below its frame offset): it needs the
+   compiler's invariants and a per-instruction analysis; the rb1 oracle of C18Check.v checks it on every run. *)
+Theorem C18_reentry_balanced_partial :
+  forall F bld P re0 cn (a : N) (s : state) (l args : list value) h ar ups (is_clo : bool) src fuel1 fuel2 ipr
+         (x : state),
+  let re := fun ip st => loop F bld P re0 fuel1 ip st in
+  let f := mkFrame src (last_pos P) (N.of_nat (length l)) (if is_clo then Some a else None) in
+  stack_ok s -> stack_of s = l ++ args -> length args = N.to_nat ar ->
+  hget (st_heap s) a = Some (callee_obj is_clo h ar ups) ->
+  assoc h (p_labels P) = Some src ->
+  S (length (st_calls s)) < call_stack_size ->
+  (code_len P <> 0)%N ->
+  nth (N.to_nat (last_pos P)) (p_code P) 255%N = 10%N ->
+  loop F bld P re0 fuel1 src (set_calls s (f :: f :: st_calls s)) = loop F bld P re0 (S (S fuel2)) ipr x ->
+  (ipr < code_len P)%N -> nth (N.to_nat ipr) (p_code P) 255%N = 22%N ->
+  (3 <= st_rem x)%N ->
+  st_calls x = f :: f :: st_calls s -> stack_ok x ->
+  firstn (length l) (stack_of x) = l -> length l < length (stack_of x) ->
+  (exists xc, close_upvalues_from (length l)
+                (set_calls (tick (set_rem x (N.pred (st_rem x)))) (f :: st_calls s)) = ClOk xc) ->
+  exists s',
+    run_function P re cn (VObj a) s = NOk (last (stack_of x) VNil) s' /\
+    stack_ok s' /\ stack_of s' = l /\ st_calls s' = st_calls s.
+Proof. exact reentry_balanced_partial. Qed.
+Print Assumptions C18_reentry_balanced_partial.
